@@ -936,6 +936,12 @@ func (e *env) reads(tier string) []string {
 	// a cache program: gets / batch gets / SetSnapshotTS / failing calls interleaved on one snapshot
 	{
 		sc := e.store.GetSnapshot(h.ts1)
+		hasLive := false
+		for _, t := range h.txns {
+			if t.kind == kLiveFinish {
+				hasLive = true
+			}
+		}
 		var ops, res []string
 		n := 6 + r.Intn(8)
 		for i := 0; i < n; i++ {
@@ -970,7 +976,9 @@ func (e *env) reads(tier string) []string {
 				if r.Intn(2) == 0 {
 					ts = h.ts2
 				}
-				if r.Intn(6) == 0 {
+				// the max timestamp reads "the latest committed data as of now", which is the final truth only
+				// if no live transaction can still be finished by a later read of the program
+				if r.Intn(6) == 0 && !hasLive {
 					ts = ^uint64(0)
 				}
 				sc.SetSnapshotTS(ts)
